@@ -160,6 +160,12 @@ class Encoder(object):
         if op == 'neg':
             return '(- %s)' % e[a[0].id]
         if op == 'div':
+            if tm.isc(a[1]) and a[1].p == 0:
+                # division by the constant zero: unspecified value (SMT-LIB leaves x/0 uninterpreted); reported with the encoding info
+                self.info['div_by_constant_zero'] = self.info.get('div_by_constant_zero', 0) + 1
+                n = 'n%d' % t.id
+                self.declare(n, 'Real')
+                return n
             if tm.isc(a[1]):
                 return self._def(t, '(* %s %s)' % (e[a[0].id], num(1 / a[1].p)))
             self.info['divs'] += 1
